@@ -156,11 +156,19 @@ class DecayConfig(BaseConfig):
     @staticmethod
     def _do_include_dict(d, o, share_dict={}):
         s = DecayConfig.load_config(o, share_dict)
+        alias = {"Par": "P", "m0": "mass", "g0": "width", "bw": "model"}
         for i in s:
             if i in d:
                 if isinstance(d[i], dict):
-                    s[i].update(d[i])
-                    d[i] = s[i]
+                    # the local definition wins whatever spelling (alias or not) either side uses
+                    local = {alias.get(k, k) for k in d[i]}
+                    merged = {
+                        k: v
+                        for k, v in s[i].items()
+                        if alias.get(k, k) not in local
+                    }
+                    merged.update(d[i])
+                    d[i] = merged
             else:
                 d[i] = s[i]
 
